@@ -502,6 +502,11 @@ class RaggedView2:
 
         # starts, lengths, col_step = (self.starts, self.lengths, self.col_step)
         step = 1 if col_slice.step is None else col_slice.step
+        # bounds / steps beyond every row select what the nearest value just past the longest row selects (as python's own
+        # slices clamp); integers beyond the index width could not be combined with the index arrays
+        far = int(np.max(self.lengths)) + 1 if len(self.lengths) else 1
+        near = lambda v: v if v is None else int(max(-far, min(far, v)))
+        col_slice, step = slice(near(col_slice.start), near(col_slice.stop), col_slice.step), near(step)
         if step > 0:
             return self._pos_col_slice(slice(col_slice.start, col_slice.stop, step))
         col_slice_start = col_slice.start
